@@ -383,6 +383,89 @@ theorem strip_prefix_exact (arms : Arms) (p : PState) (cs : List Nat)
     have hbd := cut_on_boundary cs ls hcs 0 (by rw [List.drop_zero, ← hp, ← hls]; exact hpre) (Or.inr (Or.inl rfl))
     rw [skip_exact p a.2.length hlen (by rw [hp, hls]; simpa using hbd.2)]
 
+/-- where the find form stops: the spec's result together with the position and the alternative chosen;
+    no alternative matches at any position tried before it -/
+private theorem findFrom_witness (arms : Arms) (bytes : List Nat) : ∀ (ps : List Nat) (i : Nat) (rem : List Nat),
+    findFrom arms bytes ps = some (i, rem) →
+    ∃ pre pos post a, ps = pre ++ pos :: post ∧ (∀ q ∈ pre, firstPrefix arms (bytes.drop q) = none) ∧
+      firstPrefix arms (bytes.drop pos) = some a ∧ i = a.1 ∧ rem = bytes.drop (pos + a.2.length) := by
+  intro ps
+  induction ps with
+  | nil => intro i rem h; simp [findFrom] at h
+  | cons p0 ps ih =>
+    intro i rem h
+    simp only [findFrom] at h
+    cases hf : firstPrefix arms (bytes.drop p0) with
+    | some a =>
+      rw [hf] at h
+      simp only [Option.some.injEq, Prod.mk.injEq] at h
+      exact ⟨[], p0, ps, a, rfl, by simp, hf, h.1.symm, h.2.symm⟩
+    | none =>
+      rw [hf] at h
+      obtain ⟨pre, pos, post, a, hps, hnone, hfp, hi, hrem⟩ := ih i rem h
+      refine ⟨p0 :: pre, pos, post, a, by rw [hps]; rfl, ?_, hfp, hi, hrem⟩
+      intro q hq
+      rcases List.mem_cons.mp hq with rfl | hq'
+      · exact hf
+      · exact hnone q hq'
+
+open Konst.Spec.Utf8 in
+/-- find_skip form on valid input (valid remainder, valid literals, the EMPTY literal included): the
+    parser is advanced to exactly the end of the chosen match — start offset + (position + |literal|),
+    end offset unchanged, no rounding by `Parser::skip` -/
+theorem find_skip_exact (arms : Arms) (p : PState) (cs : List Nat)
+    (hcs : ∀ c ∈ cs, isScalar c = true) (hp : p.rem = encs cs)
+    (harms : ∀ a ∈ arms, ∃ ls, a.2 = encs ls) :
+    findSkip arms p =
+      match findSkipSpec arms p.rem with
+      | some (i, rem) => (some i, ⟨p.start + (p.rem.length - rem.length), rem⟩)
+      | none => (none, p) := by
+  unfold findSkip
+  rw [findLoop_eq_spec]
+  cases h : findSkipSpec arms p.rem with
+  | none => rfl
+  | some r =>
+    obtain ⟨i, rem⟩ := r
+    dsimp only
+    unfold findSkipSpec at h
+    obtain ⟨pre, pos, post, a, hps, hnone, hfp, _, hrem⟩ := findFrom_witness arms p.rem _ i rem h
+    have hmem : pos ∈ List.range (p.rem.length + 1) := by rw [hps]; simp
+    have hpos : pos ≤ p.rem.length := by
+      have := List.mem_range.mp hmem; omega
+    have hmemA := List.mem_of_find?_eq_some hfp
+    have hpre : a.2 <+: p.rem.drop pos := by
+      have := List.find?_some hfp
+      simpa [List.isPrefixOf_iff_prefix] using this
+    obtain ⟨ls, hls⟩ := harms a hmemA
+    have hlen : pos + a.2.length ≤ p.rem.length := by
+      have := hpre.length_le; simp only [List.length_drop] at this; omega
+    -- an empty literal can only have been chosen at position 0
+    have hzero : ls ≠ [] ∨ pos = 0 ∨ pos = (encs cs).length := by
+      by_cases hl : ls = []
+      · right; left
+        have ha0 : a.2 = [] := by rw [hls, hl]; rfl
+        have h0 : firstPrefix arms (p.rem.drop 0) ≠ none := by
+          intro hn
+          have := List.find?_eq_none.mp hn a hmemA
+          simp [ha0] at this
+        -- the list of positions tried starts with 0
+        rw [List.range_succ_eq_map] at hps
+        cases pre with
+        | nil =>
+          simp only [List.nil_append, List.cons.injEq] at hps
+          exact hps.1.symm
+        | cons q pre' =>
+          simp only [List.cons_append, List.cons.injEq] at hps
+          have := hnone q (by simp)
+          rw [← hps.1] at this
+          exact absurd this h0
+      · exact Or.inl hl
+    have hbd := cut_on_boundary cs ls hcs pos (by rw [← hp, ← hls]; exact hpre) hzero
+    unfold setStart
+    have hn : p.rem.length - rem.length = pos + a.2.length := by
+      rw [hrem]; simp only [List.length_drop]; omega
+    rw [hn, skip_exact p _ hlen (by rw [hp, hls]; exact hbd.2), hrem]
+
 -- non-vacuity / sanity (kernel-evaluated)
 private def lit (s : String) : List Nat := s.toUTF8.toList.map (·.toNat)
 example : parseString ['"', 'a', '\\', 'n', '\\', 'x', '4', '1', '\\', 'u', '{', '1', '_', 'F', '6', '0', '0', '}',
